@@ -513,4 +513,675 @@ theorem noWalrusCmps (p : Nat → Bool) : (cs : List Expr) → inFragList cs = t
     simp [unparseCmps, h1, h2, toks_cmpOpOuts_noWalrus]
 end
 
+/-! ## atoms and parentheses -/
+
+theorem parseAt_15 : parseAt 15 = parseAtomExpr2 := by unfold parseAt; simp
+theorem parseAt_1 : parseAt 1 = parseTest := by unfold parseAt; simp
+
+/-- a single-token atom -/
+theorem parses_atom {t : Tok} {e : Expr} (hatom : ∀ f r, parseAtom (f + 1) (t :: r) = some (e, r))
+    (hgood : goodHead 15 t = true) {lvl : Nat} {rest : List Tok} (h1 : 1 ≤ lvl) (h15 : lvl ≤ 15)
+    (hs : Stop lvl rest) : Parses (parseAt lvl) (t :: rest) e rest := by
+  have ha : Parses parseAtom (t :: rest) e rest :=
+    ⟨1, fun fuel hf => by obtain ⟨f, rfl, _⟩ := fuel_succ hf; exact hatom f rest⟩
+  have h2 := step_atomExpr2 ha (hs.mono h15)
+  rw [← parseAt_15] at h2
+  exact lift h1 h15 (Nat.le_refl _) h2 hgood hs
+
+theorem starOrNamed_of_test {t : Tok} {r : List Tok} {e : Expr} {rest' : List Tok} {f : Nat}
+    (h : parseTest f (t :: r) = some (e, rest')) (hg : goodHead 1 t = true)
+    (hw : ∀ n r', t :: r ≠ .name n :: .op .walrus :: r') :
+    parseStarOrNamed (f + 2) (t :: r) = some (e, rest') := by
+  unfold parseStarOrNamed
+  split
+  · omega
+  · rename_i heq; simp at heq; obtain ⟨rfl, _⟩ := heq; simp [goodHead] at hg
+  · rename_i f' _ heq
+    obtain rfl : f' = f + 1 := by omega
+    unfold parseNamedTest
+    split
+    · omega
+    · rename_i heq2; exact absurd heq2 (hw _ _)
+    · rename_i f'' _ heq2
+      obtain rfl : f'' = f := by omega
+      exact h
+
+theorem parseElems_close (f : Nat) (close : Op) (hc : close ≠ .comma) (rest : List Tok) :
+    parseElems (f + 1) close (.op close :: rest) = some (([], false), rest) := by
+  unfold parseElems
+  split
+  · omega
+  · rename_i heq; simp at heq; exact absurd heq.1 hc
+  · rename_i heq; simp at heq; obtain ⟨rfl, rfl⟩ := heq; simp
+  · rename_i h1 h2; exact absurd rfl (h2 _ _)
+
+/-- a parenthesised expression -/
+theorem parses_paren {ts : List Tok} {e : Expr} {rest : List Tok}
+    (h : Parses parseTest (ts ++ .op .rpar :: rest) e (.op .rpar :: rest))
+    (hhead : ∃ t r, ts = t :: r ∧ goodHead 1 t = true) (hw : Tok.op .walrus ∉ ts)
+    (hns : isStarred e = false) {lvl : Nat} (h1 : 1 ≤ lvl) (h15 : lvl ≤ 15) (hs : Stop lvl rest) :
+    Parses (parseAt lvl) (.op .lpar :: (ts ++ .op .rpar :: rest)) e rest := by
+  obtain ⟨t, r, rfl, hg⟩ := hhead
+  obtain ⟨n, hn⟩ := h
+  have ha : Parses parseAtom (.op .lpar :: (t :: r ++ .op .rpar :: rest)) e rest := by
+    refine ⟨n + 6, fun fuel hf => ?_⟩
+    obtain ⟨f, rfl⟩ : ∃ f, fuel = f + 6 := ⟨fuel - 6, by omega⟩
+    have hT := hn (f + 2) (by omega)
+    rw [parseAtom]
+    show parseParenAtom (f + 5) _ = _
+    unfold parseParenAtom
+    split
+    · omega
+    · rename_i heq; simp at heq; obtain ⟨rfl, _⟩ := heq; simp [goodHead] at hg
+    · rename_i heq; simp at heq; obtain ⟨rfl, _⟩ := heq; simp [goodHead] at hg
+    · rename_i r' heq' _ _
+      obtain rfl : r' = f + 4 := by omega
+      have hw' : ∀ n r', t :: (r ++ .op .rpar :: rest) ≠ .name n :: .op .walrus :: r' := by
+        intro n r' hc
+        simp only [List.cons.injEq] at hc
+        cases r with
+        | nil => simp at hc
+        | cons a as =>
+          simp at hc
+          obtain ⟨_, rfl, _⟩ := hc
+          simp at hw
+      rw [show t :: r ++ Tok.op Op.rpar :: rest = t :: (r ++ .op .rpar :: rest) from rfl] at hT ⊢
+      rw [starOrNamed_of_test hT hg hw']
+      simp only [atCompFor, Bool.false_eq_true, if_false]
+      rw [parseElems_close _ _ (by decide)]
+      simp [hns]
+  have h2 := step_atomExpr2 ha (hs.mono h15)
+  rw [← parseAt_15] at h2
+  exact lift h1 h15 (Nat.le_refl _) h2 rfl hs
+
+/-! ## the round-trip statement per node -/
+
+/-- `e`, rendered at any level and followed by input that does not continue it, is read back by the
+    parser function of that level -/
+def RT (p : Nat → Bool) (e : Expr) : Prop :=
+  ∀ (lvl : Nat) (rest : List Tok), 1 ≤ lvl → lvl ≤ 15 → Stop lvl rest →
+    Parses (parseAt lvl) (toks (unparse p e lvl) ++ rest) e rest
+
+/-- left-operand form for the left-associative level `k`: reading `e` (rendered at level `k+6`) and
+    then looping is the same as looping with `e` as accumulator -/
+def LoopRT (p : Nat → Bool) (k : Nat) (e : Expr) : Prop :=
+  ∀ rest : List Tok, Stop (k + 7) rest → ∃ j n, ∀ f, n ≤ f →
+    parseBin k (f + j) (toks (unparse p e (k + 6)) ++ rest) = parseBinLoop k f e rest
+
+theorem inFrag_not_starred {e : Expr} (h : inFrag e = true) : isStarred e = false := by
+  cases e <;> first | rfl | simp [inFrag] at h
+
+theorem contTok_rpar (lvl : Nat) : contTok lvl (.op .rpar) = false := by
+  simp [contTok, isTrailerStart, isStringTok, binLevelOf, binOpOf, isCmpStart]
+
+/-- from the node's own level to every level (parenthesised above it) -/
+theorem rt_of_own (p : Nat → Bool) {e : Expr} {prec : Nat} (hf : inFrag e = true)
+    (hk : kindPrec (kindOf e) = some prec) (hp1 : 1 ≤ prec) (hp15 : prec ≤ 15)
+    (hown : ∀ rest, Stop prec rest → Parses (parseAt prec) (toks (unparse p e prec) ++ rest) e rest) :
+    RT p e := by
+  intro lvl rest h1 h15 hs
+  obtain ⟨t, r, ht, hg⟩ := firstTok p e hf prec
+  rw [unparse_group p e lvl prec hk, toks_groupIf]
+  by_cases hgt : lvl > prec
+  · rw [if_pos (by simpa using hgt)]
+    have hin : Parses (parseAt prec) (toks (unparse p e prec) ++ .op .rpar :: rest) e (.op .rpar :: rest) :=
+      hown _ (Stop.cons (contTok_rpar _))
+    rw [ht] at hin
+    have hT := lift (lvl := 1) (Nat.le_refl _) hp1 hp15 hin hg (Stop.cons (contTok_rpar _))
+    rw [parseAt_1] at hT
+    have hT' : Parses parseTest (toks (unparse p e prec) ++ .op .rpar :: rest) e (.op .rpar :: rest) := by
+      rw [ht]; exact hT
+    have := parses_paren hT' ⟨t, r, ht, goodHead_anti hp1 hg⟩ (noWalrus p e hf prec)
+      (inFrag_not_starred hf) h1 h15 hs
+    simpa using this
+  · rw [if_neg (by simpa using hgt)]
+    have h0 := hown rest (hs.mono (by omega))
+    rw [ht] at h0 ⊢
+    exact lift h1 (by omega) hp15 h0 hg hs
+
+theorem parseAt_2 : parseAt 2 = parseOrTest := by unfold parseAt; simp
+theorem parseAt_3 : parseAt 3 = parseAndTest := by unfold parseAt; simp
+theorem parseAt_4 : parseAt 4 = parseNotTest := by unfold parseAt; simp
+theorem parseAt_5 : parseAt 5 = parseCmp := by unfold parseAt; simp
+theorem parseAt_12 : parseAt 12 = parseFactor := by unfold parseAt; simp
+theorem parseAt_13 : parseAt 13 = parsePower := by unfold parseAt; simp
+theorem parseAt_14 : parseAt 14 = parseAtomExpr := by unfold parseAt; simp
+theorem parseAt_bin {k : Nat} (hk : k ≤ 5) : parseAt (k + 6) = parseBin k := by
+  unfold parseAt
+  have : k = 0 ∨ k = 1 ∨ k = 2 ∨ k = 3 ∨ k = 4 ∨ k = 5 := by omega
+  rcases this with rfl | rfl | rfl | rfl | rfl | rfl <;> simp
+
+/-! ### names and constants -/
+
+theorem rt_name (p : Nat → Bool) (id : Ident) : RT p (.name id) := by
+  intro lvl rest h1 h15 hs
+  have : toks (unparse p (.name id) lvl) = [.name id] := by simp [unparse]
+  rw [this]
+  exact parses_atom (fun f r => by rw [parseAtom]) rfl h1 h15 hs
+
+theorem rt_const (p : Nat → Bool) (c : Const) (hc : inFrag (.const c) = true) : RT p (.const c) := by
+  intro lvl rest h1 h15 hs
+  have : toks (unparse p (.const c) lvl) = [constTok c] := by simp [unparse]
+  rw [this]
+  cases c with
+  | none => exact parses_atom (fun f r => by simp [constTok, parseAtom]) rfl h1 h15 hs
+  | bool b => cases b <;> exact parses_atom (fun f r => by simp [constTok, parseAtom]) rfl h1 h15 hs
+  | ellipsis => exact parses_atom (fun f r => by simp [constTok, parseAtom]) rfl h1 h15 hs
+  | int n => exact parses_atom (fun f r => by simp [constTok, parseAtom]) rfl h1 h15 hs
+  | float b => exact parses_atom (fun f r => by simp [constTok, parseAtom]) rfl h1 h15 hs
+  | imag b => exact parses_atom (fun f r => by simp [constTok, parseAtom]) rfl h1 h15 hs
+  | str _ _ => simp [inFrag] at hc
+  | bytes _ => simp [inFrag] at hc
+
+/-! ### unary operators -/
+
+theorem rt_not (p : Nat → Bool) (x : Expr) (hx : inFrag x = true) (ih : RT p x) : RT p (.unaryOp .not x) := by
+  refine rt_of_own p (prec := 4) (by simpa [inFrag] using hx) rfl (by omega) (by omega) ?_
+  intro rest hs
+  have hx4 := ih 4 rest (by omega) (by omega) hs
+  rw [parseAt_4] at hx4 ⊢
+  obtain ⟨n, hn⟩ := hx4
+  refine ⟨n + 1, fun fuel hf => ?_⟩
+  obtain ⟨f, rfl, hf'⟩ := fuel_succ hf
+  have : toks (unparse p (.unaryOp .not x) 4) = .kw .not :: toks (unparse p x 4) := by
+    simp [unparse, groupIf, unaryOpPrec, Prec.NOT, unaryOpOuts, kw]
+  rw [this]
+  show parseNotTest (f + 1) (.kw .not :: (toks (unparse p x 4) ++ rest)) = _
+  rw [parseNotTest, hn f hf']
+
+theorem rt_factor (p : Nat → Bool) (o : UnaryOp) (ho : o ≠ .not) (x : Expr) (hx : inFrag x = true)
+    (ih : RT p x) : RT p (.unaryOp o x) := by
+  have hprec : unaryOpPrec o = 12 := by cases o <;> first | rfl | exact absurd rfl ho
+  refine rt_of_own p (prec := 12) (by simpa [inFrag] using hx) (by simp [kindOf, kindPrec, hprec]) (by omega) (by omega) ?_
+  intro rest hs
+  have hx12 := ih 12 rest (by omega) (by omega) hs
+  rw [parseAt_12] at hx12 ⊢
+  obtain ⟨n, hn⟩ := hx12
+  refine ⟨n + 1, fun fuel hf => ?_⟩
+  obtain ⟨f, rfl, hf'⟩ := fuel_succ hf
+  have : toks (unparse p (.unaryOp o x) 12) = unaryTok o :: toks (unparse p x 12) := by
+    simp [unparse, groupIf, hprec, toks_unaryOpOuts]
+  rw [this]
+  show parseFactor (f + 1) (unaryTok o :: (toks (unparse p x 12) ++ rest)) = _
+  have hu : unaryOpAt (unaryTok o :: (toks (unparse p x 12) ++ rest)) = some (o, toks (unparse p x 12) ++ rest) := by
+    cases o <;> first | rfl | exact absurd rfl ho
+  rw [parseFactor, hu]
+  simp only
+  rw [hn f hf']
+
+/-! ### `**` -/
+
+theorem contTok_dstar_14 : contTok 14 (.op .dstar) = false := by
+  simp [contTok, isTrailerStart, isStringTok, binLevelOf, binOpOf, isCmpStart]
+
+theorem rt_pow (p : Nat → Bool) (l r : Expr) (hl : inFrag l = true) (hr : inFrag r = true)
+    (ihl : RT p l) (ihr : RT p r) : RT p (.binOp l .pow r) := by
+  refine rt_of_own p (prec := 13) (by simp [inFrag, hl, hr]) rfl (by omega) (by omega) ?_
+  intro rest hs
+  have htoks : toks (unparse p (.binOp l .pow r) 13) =
+      toks (unparse p l 14) ++ .op .dstar :: toks (unparse p r 13) := by
+    simp [unparse, groupIf, binOpPrec, Prec.POWER, binOpTok, op]
+  rw [htoks, List.append_assoc, List.cons_append, parseAt_13]
+  have h1 := ihl 14 (.op .dstar :: (toks (unparse p r 13) ++ rest)) (by omega) (by omega)
+    (Stop.cons contTok_dstar_14)
+  rw [parseAt_14] at h1
+  have h2 := ihr 13 rest (by omega) (by omega) hs
+  rw [parseAt_13] at h2
+  obtain ⟨t, tr, ht, hg⟩ := firstTok p r hr 13
+  rw [ht] at h2
+  have h3 := step_factor h2 (by unfold unaryOpAt; split <;> simp_all [goodHead])
+  rw [← ht] at h3
+  obtain ⟨n1, hn1⟩ := h1
+  obtain ⟨n3, hn3⟩ := h3
+  refine ⟨n1 + n3 + 1, fun fuel hf => ?_⟩
+  obtain ⟨f, rfl⟩ : ∃ f, fuel = f + 1 := ⟨fuel - 1, by omega⟩
+  rw [parsePower, hn1 f (by omega)]
+  simp only
+  rw [hn3 f (by omega)]
+
+/-! ### the six left-associative binary levels -/
+
+/-- level index (0 … 5) of a left-associative binary operator -/
+def binLevel (o : BinOp) : Nat := binOpPrec o - 6
+
+theorem binOpOf_binOpTok (o : BinOp) (ho : o ≠ .pow) : binOpOf (binOpTok o) = some (o, binLevel o) := by
+  cases o <;> first | rfl | exact absurd rfl ho
+
+theorem binLevel_le (o : BinOp) (ho : o ≠ .pow) : binLevel o ≤ 5 ∧ binOpPrec o = binLevel o + 6 := by
+  cases o <;> first | exact absurd rfl ho | exact ⟨by decide, rfl⟩
+
+theorem contTok_binOpTok (o : BinOp) (ho : o ≠ .pow) : contTok (binLevel o + 7) (.op (binOpTok o)) = false := by
+  cases o <;> first | exact absurd rfl ho | rfl
+
+/-- `LoopRT` from `RT` when the node is not itself an operator of level `k` -/
+theorem loopRT_of_rt (p : Nat → Bool) {k : Nat} (hk : k ≤ 5) {e : Expr}
+    (hne : unparse p e (k + 6) = unparse p e (k + 7)) (ih : RT p e) : LoopRT p k e := by
+  intro rest hs
+  have h := ih (k + 7) rest (by omega) (by omega) hs
+  rw [← binOperand_eq_parseAt hk, ← hne] at h
+  obtain ⟨n, hn⟩ := h
+  refine ⟨1, n, fun f hf => ?_⟩
+  have := hn f hf
+  simp only [binOperand] at this
+  rw [parseBin, this]
+
+theorem unparse_level_succ (p : Nat → Bool) (e : Expr) (lvl : Nat)
+    (h : kindPrec (kindOf e) ≠ some lvl) : unparse p e lvl = unparse p e (lvl + 1) := by
+  cases hk : kindPrec (kindOf e) with
+  | none => exact unparse_nogroup p e _ _ hk
+  | some prec =>
+    rw [unparse_group p e lvl prec hk, unparse_group p e (lvl + 1) prec hk]
+    have : prec ≠ lvl := by intro h'; subst h'; exact h hk
+    have : decide (lvl > prec) = decide (lvl + 1 > prec) := by
+      by_cases h1 : lvl > prec <;> simp [h1] <;> omega
+    rw [this]
+
+/-- a left-associative operator node, in left-operand form -/
+theorem loopRT_bin (p : Nat → Bool) (l : Expr) (o : BinOp) (r : Expr) (ho : o ≠ .pow)
+    (ihl : LoopRT p (binLevel o) l) (ihr : RT p r) : LoopRT p (binLevel o) (.binOp l o r) := by
+  obtain ⟨hk5, hprec⟩ := binLevel_le o ho
+  intro rest hs
+  have htoks : toks (unparse p (.binOp l o r) (binLevel o + 6)) =
+      toks (unparse p l (binLevel o + 6)) ++ .op (binOpTok o) :: toks (unparse p r (binLevel o + 7)) := by
+    simp [unparse, groupIf, ho, hprec, op]
+  rw [htoks, List.append_assoc, List.cons_append]
+  obtain ⟨j1, n1, h1⟩ := ihl (.op (binOpTok o) :: (toks (unparse p r (binLevel o + 7)) ++ rest))
+    (Stop.cons (contTok_binOpTok o ho))
+  have h2 := ihr (binLevel o + 7) rest (by omega) (by omega) hs
+  rw [← binOperand_eq_parseAt hk5] at h2
+  obtain ⟨n2, hn2⟩ := h2
+  refine ⟨j1 + 1, n1 + n2, fun f hf => ?_⟩
+  rw [show f + (j1 + 1) = (f + 1) + j1 by omega, h1 (f + 1) (by omega)]
+  have hb : binOpAt (binLevel o) (.op (binOpTok o) :: (toks (unparse p r (binLevel o + 7)) ++ rest)) =
+      some (o, toks (unparse p r (binLevel o + 7)) ++ rest) := by
+    simp [binOpAt, binOpOf_binOpTok o ho]
+  rw [parseBinLoop, hb]
+  simp only
+  have := hn2 f (by omega)
+  simp only [binOperand] at this
+  rw [this]
+
+/-- … and read at its own level -/
+theorem rt_bin (p : Nat → Bool) (l : Expr) (o : BinOp) (r : Expr) (ho : o ≠ .pow)
+    (hl : inFrag l = true) (hr : inFrag r = true)
+    (ihl : LoopRT p (binLevel o) l) (ihr : RT p r) : RT p (.binOp l o r) := by
+  obtain ⟨hk5, hprec⟩ := binLevel_le o ho
+  refine rt_of_own p (prec := binLevel o + 6) (by simp [inFrag, hl, hr]) (by simp [kindOf, kindPrec, hprec])
+    (by omega) (by omega) ?_
+  intro rest hs
+  obtain ⟨j, n, h⟩ := loopRT_bin p l o r ho ihl ihr rest (hs.mono (by omega))
+  rw [parseAt_bin hk5]
+  refine ⟨n + j + 1, fun fuel hf => ?_⟩
+  obtain ⟨f, rfl⟩ : ∃ f, fuel = (f + 1) + j := ⟨fuel - j - 1, by omega⟩
+  rw [h (f + 1) (by omega), parseBinLoop, Stop.binOpAt hk5 hs]
+
+/-! ### `or` / `and` chains -/
+
+theorem contTok_or_3 : contTok 3 (.kw .or) = false := by
+  simp [contTok, isTrailerStart, isStringTok, binLevelOf, isCmpStart]
+theorem contTok_and_4 : contTok 4 (.kw .and) = false := by
+  simp [contTok, isTrailerStart, isStringTok, binLevelOf, isCmpStart]
+
+/-- the remaining operands of an `or` chain -/
+theorem orRest (p : Nat → Bool) : (vs : List Expr) → (∀ v ∈ vs, RT p v) → ∀ (v : Expr), RT p v →
+    ∀ rest, Stop 2 rest → ∃ n, ∀ f, n ≤ f →
+      parseOrRest f (toks (unparse p v 3) ++ toks (unparseBool p vs .or 3 false) ++ rest) = some (v :: vs, rest)
+  | [], _, v, hv, rest, hs => by
+    have h := hv 3 rest (by omega) (by omega) (hs.mono (by omega))
+    rw [parseAt_3] at h
+    obtain ⟨n, hn⟩ := h
+    refine ⟨n + 1, fun fuel hf => ?_⟩
+    obtain ⟨f, rfl, hf'⟩ := fuel_succ hf
+    simp only [unparseBool, toks_nil, List.append_nil]
+    rw [parseOrRest, hn f hf']
+    split
+    · rename_i h1; simp at h1; exact absurd h1.2 (hs.not_or _)
+    · rename_i h1 h2; simp at h2; obtain ⟨rfl, rfl⟩ := h2; rfl
+    · rename_i h1; simp at h1
+  | w :: ws, hvs, v, hv, rest, hs => by
+    have h := hv 3 (.kw .or :: (toks (unparse p w 3) ++ toks (unparseBool p ws .or 3 false) ++ rest))
+      (by omega) (by omega) (Stop.cons contTok_or_3)
+    rw [parseAt_3] at h
+    obtain ⟨n1, hn1⟩ := h
+    obtain ⟨n2, hn2⟩ := orRest p ws (fun x hx => hvs x (List.mem_cons_of_mem _ hx)) w
+      (hvs w (List.mem_cons_self ..)) rest hs
+    refine ⟨n1 + n2 + 1, fun fuel hf => ?_⟩
+    obtain ⟨f, rfl⟩ : ∃ f, fuel = f + 1 := ⟨fuel - 1, by omega⟩
+    have e1 : toks (unparse p v 3) ++ toks (unparseBool p (w :: ws) .or 3 false) ++ rest =
+        toks (unparse p v 3) ++ .kw .or :: (toks (unparse p w 3) ++ toks (unparseBool p ws .or 3 false) ++ rest) := by
+      simp [toks_unparseBool_cons']
+    rw [e1, parseOrRest, hn1 f (by omega)]
+    simp only
+    rw [hn2 f (by omega)]
+
+theorem andRest (p : Nat → Bool) : (vs : List Expr) → (∀ v ∈ vs, RT p v) → ∀ (v : Expr), RT p v →
+    ∀ rest, Stop 3 rest → ∃ n, ∀ f, n ≤ f →
+      parseAndRest f (toks (unparse p v 4) ++ toks (unparseBool p vs .and 4 false) ++ rest) = some (v :: vs, rest)
+  | [], _, v, hv, rest, hs => by
+    have h := hv 4 rest (by omega) (by omega) (hs.mono (by omega))
+    rw [parseAt_4] at h
+    obtain ⟨n, hn⟩ := h
+    refine ⟨n + 1, fun fuel hf => ?_⟩
+    obtain ⟨f, rfl, hf'⟩ := fuel_succ hf
+    simp only [unparseBool, toks_nil, List.append_nil]
+    rw [parseAndRest, hn f hf']
+    split
+    · rename_i h1; simp at h1; exact absurd h1.2 (hs.not_and _)
+    · rename_i h1 h2; simp at h2; obtain ⟨rfl, rfl⟩ := h2; rfl
+    · rename_i h1; simp at h1
+  | w :: ws, hvs, v, hv, rest, hs => by
+    have h := hv 4 (.kw .and :: (toks (unparse p w 4) ++ toks (unparseBool p ws .and 4 false) ++ rest))
+      (by omega) (by omega) (Stop.cons contTok_and_4)
+    rw [parseAt_4] at h
+    obtain ⟨n1, hn1⟩ := h
+    obtain ⟨n2, hn2⟩ := andRest p ws (fun x hx => hvs x (List.mem_cons_of_mem _ hx)) w
+      (hvs w (List.mem_cons_self ..)) rest hs
+    refine ⟨n1 + n2 + 1, fun fuel hf => ?_⟩
+    obtain ⟨f, rfl⟩ : ∃ f, fuel = f + 1 := ⟨fuel - 1, by omega⟩
+    have e1 : toks (unparse p v 4) ++ toks (unparseBool p (w :: ws) .and 4 false) ++ rest =
+        toks (unparse p v 4) ++ .kw .and :: (toks (unparse p w 4) ++ toks (unparseBool p ws .and 4 false) ++ rest) := by
+      simp [toks_unparseBool_cons']
+    rw [e1, parseAndRest, hn1 f (by omega)]
+    simp only
+    rw [hn2 f (by omega)]
+
+theorem rt_or (p : Nat → Bool) (v w : Expr) (ws : List Expr) (hf : inFrag (.boolOp .or (v :: w :: ws)) = true)
+    (hv : RT p v) (hvs : ∀ x ∈ w :: ws, RT p x) : RT p (.boolOp .or (v :: w :: ws)) := by
+  refine rt_of_own p (prec := 2) hf rfl (by omega) (by omega) ?_
+  intro rest hs
+  rw [parseAt_2]
+  have h := hv 3 (.kw .or :: (toks (unparse p w 3) ++ toks (unparseBool p ws .or 3 false) ++ rest))
+    (by omega) (by omega) (Stop.cons contTok_or_3)
+  rw [parseAt_3] at h
+  obtain ⟨n1, hn1⟩ := h
+  obtain ⟨n2, hn2⟩ := orRest p ws (fun x hx => hvs x (List.mem_cons_of_mem _ hx)) w
+    (hvs w (List.mem_cons_self ..)) rest hs
+  refine ⟨n1 + n2 + 1, fun fuel hf => ?_⟩
+  obtain ⟨f, rfl⟩ : ∃ f, fuel = f + 1 := ⟨fuel - 1, by omega⟩
+  have e1 : toks (unparse p (.boolOp .or (v :: w :: ws)) 2) ++ rest =
+      toks (unparse p v 3) ++ .kw .or :: (toks (unparse p w 3) ++ toks (unparseBool p ws .or 3 false) ++ rest) := by
+    simp [unparse, groupIf, boolOpPrec, Prec.OR, boolOpKw, toks_unparseBool_cons, toks_unparseBool_cons']
+  rw [e1, parseOrTest, hn1 f (by omega)]
+  simp only
+  rw [hn2 f (by omega)]
+
+theorem rt_and (p : Nat → Bool) (v w : Expr) (ws : List Expr) (hf : inFrag (.boolOp .and (v :: w :: ws)) = true)
+    (hv : RT p v) (hvs : ∀ x ∈ w :: ws, RT p x) : RT p (.boolOp .and (v :: w :: ws)) := by
+  refine rt_of_own p (prec := 3) hf rfl (by omega) (by omega) ?_
+  intro rest hs
+  rw [parseAt_3]
+  have h := hv 4 (.kw .and :: (toks (unparse p w 4) ++ toks (unparseBool p ws .and 4 false) ++ rest))
+    (by omega) (by omega) (Stop.cons contTok_and_4)
+  rw [parseAt_4] at h
+  obtain ⟨n1, hn1⟩ := h
+  obtain ⟨n2, hn2⟩ := andRest p ws (fun x hx => hvs x (List.mem_cons_of_mem _ hx)) w
+    (hvs w (List.mem_cons_self ..)) rest hs
+  refine ⟨n1 + n2 + 1, fun fuel hf => ?_⟩
+  obtain ⟨f, rfl⟩ : ∃ f, fuel = f + 1 := ⟨fuel - 1, by omega⟩
+  have e1 : toks (unparse p (.boolOp .and (v :: w :: ws)) 3) ++ rest =
+      toks (unparse p v 4) ++ .kw .and :: (toks (unparse p w 4) ++ toks (unparseBool p ws .and 4 false) ++ rest) := by
+    simp [unparse, groupIf, boolOpPrec, Prec.AND, boolOpKw, toks_unparseBool_cons, toks_unparseBool_cons']
+  rw [e1, parseAndTest, hn1 f (by omega)]
+  simp only
+  rw [hn2 f (by omega)]
+
+/-! ### conditional expressions -/
+
+theorem contTok_if_2 : contTok 2 (.kw .if) = false := by
+  simp [contTok, isTrailerStart, isStringTok, binLevelOf, isCmpStart]
+theorem contTok_else (lvl : Nat) : contTok lvl (.kw .else) = false := by
+  simp [contTok, isTrailerStart, isStringTok, binLevelOf, isCmpStart]
+
+theorem rt_ifExp (p : Nat → Bool) (t b o : Expr) (hf : inFrag (.ifExp t b o) = true)
+    (ht : RT p t) (hb : RT p b) (ho : RT p o) : RT p (.ifExp t b o) := by
+  refine rt_of_own p (prec := 1) hf rfl (by omega) (by omega) ?_
+  intro rest hs
+  rw [parseAt_1]
+  have e1 : toks (unparse p (.ifExp t b o) 1) ++ rest =
+      toks (unparse p b 2) ++ .kw .if :: (toks (unparse p t 2) ++ .kw .else :: (toks (unparse p o 1) ++ rest)) := by
+    simp [unparse, groupIf, Prec.TEST, kw]
+  have h1 := hb 2 (.kw .if :: (toks (unparse p t 2) ++ .kw .else :: (toks (unparse p o 1) ++ rest)))
+    (by omega) (by omega) (Stop.cons contTok_if_2)
+  have h2 := ht 2 (.kw .else :: (toks (unparse p o 1) ++ rest)) (by omega) (by omega) (Stop.cons (contTok_else _))
+  have h3 := ho 1 rest (by omega) (by omega) hs
+  rw [parseAt_2] at h1 h2
+  rw [parseAt_1] at h3
+  obtain ⟨n1, hn1⟩ := h1
+  obtain ⟨n2, hn2⟩ := h2
+  obtain ⟨n3, hn3⟩ := h3
+  have hb' : inFrag b = true := by simp [inFrag] at hf; exact hf.1.2
+  obtain ⟨tk, tr, htk, hg⟩ := firstTok p b hb' 2
+  refine ⟨n1 + n2 + n3 + 1, fun fuel hfu => ?_⟩
+  obtain ⟨f, rfl⟩ : ∃ f, fuel = f + 1 := ⟨fuel - 1, by omega⟩
+  rw [e1]
+  rw [parseTest.eq_3 _ _ (by
+    intro r' h'
+    rw [htk] at h'
+    simp at h'
+    obtain ⟨rfl, _⟩ := h'
+    simp [goodHead] at hg)]
+  rw [hn1 f (by omega)]
+  simp only
+  rw [hn2 f (by omega)]
+  simp only
+  rw [hn3 f (by omega)]
+
+/-! ### comparison chains -/
+
+theorem cmpOpAt_toks (o : CmpOp) (X : List Tok) (hX : ∀ r, X ≠ .kw .not :: r) :
+    cmpOpAt (toks (cmpOpOuts o) ++ X) = some (o, X) := by
+  cases o <;> simp [cmpOpOuts, toks, op, kw, cmpOpAt]
+
+theorem contTok_cmp_6 (o : CmpOp) : ∀ t r, toks (cmpOpOuts o) = t :: r → contTok 6 t = false := by
+  intro t r h
+  cases o <;> simp [cmpOpOuts, toks, op, kw] at h <;> obtain ⟨rfl, _⟩ := h <;>
+    simp [contTok, isTrailerStart, isStringTok, binLevelOf, binOpOf, isCmpStart]
+
+theorem stop6_cmps (p : Nat → Bool) (ops : List CmpOp) (cs : List Expr) (rest : List Tok)
+    (hs : Stop 5 rest) : Stop 6 (toks (unparseCmps p ops cs) ++ rest) := by
+  cases ops with
+  | nil => simpa [unparseCmps] using hs.mono (by omega)
+  | cons o os =>
+    cases cs with
+    | nil => simpa [unparseCmps] using hs.mono (by omega)
+    | cons c cs' =>
+      intro t r h
+      have : ∃ t' r', toks (cmpOpOuts o) = t' :: r' := by cases o <;> simp [cmpOpOuts, toks, op, kw]
+      obtain ⟨t', r', h'⟩ := this
+      simp [unparseCmps, h'] at h
+      obtain ⟨rfl, _⟩ := h
+      exact contTok_cmp_6 o _ _ h'
+
+theorem cmpRest (p : Nat → Bool) : (cs : List Expr) → (ops : List CmpOp) → ops.length = cs.length →
+    (∀ c ∈ cs, RT p c ∧ inFrag c = true) → ∀ rest, Stop 5 rest → ∃ n, ∀ f, n ≤ f →
+      parseCmpRest f (toks (unparseCmps p ops cs) ++ rest) = some ((ops, cs), rest)
+  | [], [], _, _, rest, hs => by
+    refine ⟨1, fun fuel hf => ?_⟩
+    obtain ⟨f, rfl, _⟩ := fuel_succ hf
+    simp [unparseCmps, parseCmpRest, hs.cmpOpAt]
+  | [], _ :: _, hl, _, _, _ => by simp at hl
+  | _ :: _, [], hl, _, _, _ => by simp at hl
+  | c :: cs, o :: os, hl, hcs, rest, hs => by
+    obtain ⟨hc, hcf⟩ := hcs c (List.mem_cons_self ..)
+    have hR := stop6_cmps p os cs rest hs
+    have h1 := hc 6 (toks (unparseCmps p os cs) ++ rest) (by omega) (by omega) hR
+    rw [parseAt_bin (k := 0) (by omega)] at h1
+    obtain ⟨n1, hn1⟩ := h1
+    obtain ⟨n2, hn2⟩ := cmpRest p cs os (by simpa using hl)
+      (fun x hx => hcs x (List.mem_cons_of_mem _ hx)) rest hs
+    obtain ⟨t, tr, ht, hg⟩ := firstTok p c hcf 6
+    refine ⟨n1 + n2 + 1, fun fuel hf => ?_⟩
+    obtain ⟨f, rfl⟩ : ∃ f, fuel = f + 1 := ⟨fuel - 1, by omega⟩
+    have e1 : toks (unparseCmps p (o :: os) (c :: cs)) ++ rest =
+        toks (cmpOpOuts o) ++ (toks (unparse p c 6) ++ (toks (unparseCmps p os cs) ++ rest)) := by
+      simp [unparseCmps, Prec.CMP]
+    have hop := cmpOpAt_toks o (toks (unparse p c 6) ++ (toks (unparseCmps p os cs) ++ rest))
+      (by intro r h; rw [ht] at h; simp at h; obtain ⟨rfl, _⟩ := h; simp [goodHead] at hg)
+    rw [e1, parseCmpRest, hop]
+    simp only
+    rw [hn1 f (by omega)]
+    simp only
+    rw [hn2 f (by omega)]
+
+theorem rt_compare (p : Nat → Bool) (l : Expr) (ops : List CmpOp) (cs : List Expr)
+    (hf : inFrag (.compare l ops cs) = true) (hl : RT p l)
+    (hcs : ∀ c ∈ cs, RT p c ∧ inFrag c = true) : RT p (.compare l ops cs) := by
+  refine rt_of_own p (prec := 5) hf rfl (by omega) (by omega) ?_
+  intro rest hs
+  rw [parseAt_5]
+  have hlen : ops.length = cs.length := by simp [inFrag] at hf; exact hf.1.2
+  have hne : cs ≠ [] := by simp [inFrag] at hf; exact hf.1.1.2
+  have h1 := hl 6 (toks (unparseCmps p ops cs) ++ rest) (by omega) (by omega) (stop6_cmps p ops cs rest hs)
+  rw [parseAt_bin (k := 0) (by omega)] at h1
+  obtain ⟨n1, hn1⟩ := h1
+  obtain ⟨n2, hn2⟩ := cmpRest p cs ops hlen hcs rest hs
+  refine ⟨n1 + n2 + 1, fun fuel hfu => ?_⟩
+  obtain ⟨f, rfl⟩ : ∃ f, fuel = f + 1 := ⟨fuel - 1, by omega⟩
+  have e1 : toks (unparse p (.compare l ops cs) 5) ++ rest =
+      toks (unparse p l 6) ++ (toks (unparseCmps p ops cs) ++ rest) := by
+    simp [unparse, groupIf, Prec.CMP]
+  rw [e1, parseCmp, hn1 f (by omega)]
+  simp only
+  -- the rest starts with a comparison operator
+  obtain ⟨c, cs', rfl⟩ : ∃ c cs', cs = c :: cs' := by cases cs with | nil => exact absurd rfl hne | cons c cs' => exact ⟨c, cs', rfl⟩
+  obtain ⟨o, os, rfl⟩ : ∃ o os, ops = o :: os := by cases ops with | nil => simp at hlen | cons o os => exact ⟨o, os, rfl⟩
+  obtain ⟨hc, hcf⟩ := hcs c (List.mem_cons_self ..)
+  obtain ⟨t, tr, ht, hg⟩ := firstTok p c hcf 6
+  have e2 : toks (unparseCmps p (o :: os) (c :: cs')) ++ rest =
+      toks (cmpOpOuts o) ++ (toks (unparse p c 6) ++ (toks (unparseCmps p os cs') ++ rest)) := by
+    simp [unparseCmps, Prec.CMP]
+  have hop := cmpOpAt_toks o (toks (unparse p c 6) ++ (toks (unparseCmps p os cs') ++ rest))
+    (by intro r h; rw [ht] at h; simp at h; obtain ⟨rfl, _⟩ := h; simp [goodHead] at hg)
+  have := hn2 f (by omega)
+  rw [e2] at this ⊢
+  rw [hop]
+  simp only
+  rw [this]
+
+/-! ## the induction over the fragment -/
+
+/-- `LoopRT` for a node that is not a left-associative operator of level `k` -/
+theorem loopRT_other (p : Nat → Bool) {k : Nat} (hk : k ≤ 5) {e : Expr}
+    (hne : kindPrec (kindOf e) ≠ some (k + 6)) (ih : RT p e) : LoopRT p k e :=
+  loopRT_of_rt p hk (unparse_level_succ p e (k + 6) hne) ih
+
+theorem binOpPrec_pow : binOpPrec .pow = 13 := rfl
+
+mutual
+theorem rt_all (p : Nat → Bool) : (e : Expr) → inFrag e = true → RT p e ∧ ∀ k, k ≤ 5 → LoopRT p k e
+  | .name id, _ => ⟨rt_name p id, fun k hk => loopRT_other p hk (by simp [kindOf, kindPrec]) (rt_name p id)⟩
+  | .const c, h => ⟨rt_const p c h, fun k hk => loopRT_other p hk (by simp [kindOf, kindPrec]) (rt_const p c h)⟩
+  | .unaryOp o x, h => by
+    have hx : inFrag x = true := by simpa [inFrag] using h
+    have ihx := (rt_all p x hx).1
+    have hrt : RT p (.unaryOp o x) := by
+      by_cases ho : o = .not
+      · subst ho; exact rt_not p x hx ihx
+      · exact rt_factor p o ho x hx ihx
+    refine ⟨hrt, fun k hk => loopRT_other p hk ?_ hrt⟩
+    cases o <;> simp [kindOf, kindPrec, unaryOpPrec, Prec.FACTOR, Prec.NOT] <;> omega
+  | .binOp l o r, h => by
+    have hl : inFrag l = true := by simp [inFrag] at h; exact h.1
+    have hr : inFrag r = true := by simp [inFrag] at h; exact h.2
+    obtain ⟨ihl, ihlL⟩ := rt_all p l hl
+    obtain ⟨ihr, _⟩ := rt_all p r hr
+    by_cases ho : o = .pow
+    · subst ho
+      have hrt := rt_pow p l r hl hr ihl ihr
+      exact ⟨hrt, fun k hk => loopRT_other p hk (by simp [kindOf, kindPrec, binOpPrec_pow]; omega) hrt⟩
+    · obtain ⟨hk5, hprec⟩ := binLevel_le o ho
+      have hrt := rt_bin p l o r ho hl hr (ihlL _ hk5) ihr
+      refine ⟨hrt, fun k hk => ?_⟩
+      by_cases hkk : k = binLevel o
+      · subst hkk; exact loopRT_bin p l o r ho (ihlL _ hk5) ihr
+      · exact loopRT_other p hk (by simp [kindOf, kindPrec, hprec]; omega) hrt
+  | .boolOp o [], h => by simp [inFrag] at h
+  | .boolOp o [_], h => by simp [inFrag] at h
+  | .boolOp o (v :: w :: ws), h => by
+    have hv : inFrag v = true := by simp [inFrag, inFragList] at h; exact h.1
+    have hws : inFragList (w :: ws) = true := by simp [inFrag, inFragList] at h ⊢; exact h.2
+    have ihv := (rt_all p v hv).1
+    have ihws := rt_list p (w :: ws) hws
+    have hrt : RT p (.boolOp o (v :: w :: ws)) := by
+      cases o
+      · exact rt_and p v w ws h ihv (fun x hx => (ihws x hx).1)
+      · exact rt_or p v w ws h ihv (fun x hx => (ihws x hx).1)
+    refine ⟨hrt, fun k hk => loopRT_other p hk ?_ hrt⟩
+    cases o <;> simp [kindOf, kindPrec, boolOpPrec, Prec.AND, Prec.OR] <;> omega
+  | .compare l ops cs, h => by
+    have hl : inFrag l = true := by simp [inFrag] at h; exact h.1.1.1
+    have hc : inFragList cs = true := by simp [inFrag] at h; exact h.2
+    have ihl := (rt_all p l hl).1
+    have ihcs := rt_list p cs hc
+    have hrt := rt_compare p l ops cs h ihl ihcs
+    exact ⟨hrt, fun k hk => loopRT_other p hk (by simp [kindOf, kindPrec, Prec.CMP] <;> omega) hrt⟩
+  | .ifExp t b o, h => by
+    have ht : inFrag t = true := by simp [inFrag] at h; exact h.1.1
+    have hb : inFrag b = true := by simp [inFrag] at h; exact h.1.2
+    have ho : inFrag o = true := by simp [inFrag] at h; exact h.2
+    have hrt := rt_ifExp p t b o h (rt_all p t ht).1 (rt_all p b hb).1 (rt_all p o ho).1
+    exact ⟨hrt, fun k hk => loopRT_other p hk (by simp [kindOf, kindPrec, Prec.TEST] <;> omega) hrt⟩
+  | .namedExpr .., h | .lambda .., h | .dict .., h | .set .., h | .listComp .., h
+  | .setComp .., h | .dictComp .., h | .genExp .., h | .await .., h | .yield .., h
+  | .yieldFrom .., h | .call .., h | .formattedValue .., h | .joinedStr .., h
+  | .attribute .., h | .subscript .., h | .starred .., h | .list .., h | .tuple .., h
+  | .slice .., h => by simp [inFrag] at h
+theorem rt_list (p : Nat → Bool) : (es : List Expr) → inFragList es = true →
+    ∀ e ∈ es, RT p e ∧ inFrag e = true
+  | [], _ => by simp
+  | x :: xs, h => by
+    have hx : inFrag x = true := by simp [inFragList] at h; exact h.1
+    have hxs : inFragList xs = true := by simp [inFragList] at h; exact h.2
+    intro e he
+    rcases List.mem_cons.mp he with h0 | he'
+    · rw [h0]; exact ⟨(rt_all p x hx).1, hx⟩
+    · exact rt_list p xs hxs e he'
+end
+
+/-! ## failure lifts too -/
+
+/-- if no fuel lets `parseAtom` read an atom off `ts` (and `ts` does not start with a prefix operator or
+    keyword), no fuel lets `parseTest` read anything -/
+theorem parseTest_none_of_atom_none {t : Tok} {r : List Tok}
+    (hatom : ∀ f, parseAtom f (t :: r) = none)
+    (h1 : t ≠ .kw .lambda) (h2 : t ≠ .kw .not) (h3 : t ≠ .kw .await)
+    (h4 : unaryOpAt (t :: r) = none) : ∀ f, parseTest f (t :: r) = none := by
+  have hA2 : ∀ f, parseAtomExpr2 f (t :: r) = none := by
+    intro f; cases f <;> simp [parseAtomExpr2, hatom]
+  have hA : ∀ f, parseAtomExpr f (t :: r) = none := by
+    intro f
+    cases f with
+    | zero => simp [parseAtomExpr]
+    | succ f => rw [parseAtomExpr.eq_3 _ _ (by intro r' h; cases h; exact h3 rfl)]; exact hA2 f
+  have hP : ∀ f, parsePower f (t :: r) = none := by
+    intro f; cases f <;> simp [parsePower, hA]
+  have hF : ∀ f, parseFactor f (t :: r) = none := by
+    intro f; cases f <;> simp [parseFactor, h4, hP]
+  have hB : ∀ d k f, k + d = 5 → parseBin k f (t :: r) = none := by
+    intro d
+    induction d with
+    | zero => intro k f hk; cases f <;> simp [parseBin, show k ≥ 5 by omega, hF]
+    | succ d ih =>
+      intro k f hk
+      cases f with
+      | zero => simp [parseBin]
+      | succ f => simp [parseBin, show ¬ k ≥ 5 by omega, ih (k + 1) f (by omega)]
+  have hC : ∀ f, parseCmp f (t :: r) = none := by
+    intro f; cases f <;> simp [parseCmp, hB 5 0 _ rfl]
+  have hN : ∀ f, parseNotTest f (t :: r) = none := by
+    intro f
+    cases f with
+    | zero => simp [parseNotTest]
+    | succ f => rw [parseNotTest.eq_3 _ _ (by intro r' h; cases h; exact h2 rfl)]; exact hC f
+  have hAnd : ∀ f, parseAndTest f (t :: r) = none := by
+    intro f; cases f <;> simp [parseAndTest, hN]
+  have hOr : ∀ f, parseOrTest f (t :: r) = none := by
+    intro f; cases f <;> simp [parseOrTest, hAnd]
+  intro f
+  cases f with
+  | zero => simp [parseTest]
+  | succ f =>
+    rw [parseTest.eq_3 _ _ (by intro r' h; cases h; exact h1 rfl)]
+    simp [hOr]
+
 end PV.C11
